@@ -156,6 +156,8 @@ var CatalogFiles = Files{
 	"p_laynumbad.vuego":      "---\nlayout: cat_num2\n---\n<p>{{ canary }}</p>",
 	"layouts/cat_num2.vuego": "---\nlayout: 2025\n---\n<article v-html=\"content\"></article>",
 	"layouts/2025.vuego":     "<html><head><title>{{ canary | nosuch4 }}</title></head><body v-html=\"content\"></body></html>",
+	// an empty (or blank, or interpolated-to-nothing) static style next to a bound one with several properties
+	"p_styleempty.vuego": `<p style="" :style="{color: color, fontSize: '12px', marginTop: '1px', paddingLeft: '2px', lineHeight: 1}">{{ canary }}</p><i style="  " :style="{top: 0, left: n, right: n}" v-show="hide">x</i><b style="{{ missing }}" :style="{color: color, width: '1px', height: '2px'}">y</b>`,
 	// raw-text elements whose content comes from data that contains their own end tag (nothing can be escaped there)
 	"p_rawend.vuego": `<h1>{{ title }}</h1><p>{{ canary }}</p><script>const note = "{{ endscript }}";</script><style>{{ endstyle }}</style><p>tail</p>`,
 	// rows of two struct types that have the same name (declared in two functions) and their tags at other positions
@@ -214,6 +216,7 @@ var Catalog = func() []Program {
 		{Name: "wrap", Page: "p_wrap.vuego", Data: d},
 		{Name: "inconce", Page: "p_inconce.vuego", Data: d},
 		{Name: "laynum", Page: "p_laynum.vuego", Data: d, HasFM: true, Layout: true},
+		{Name: "styleempty", Page: "p_styleempty.vuego", Data: d},
 		{Name: "rawend", Page: "p_rawend.vuego", Data: catData(map[string]any{"endscript": "</script><img src=x>", "endstyle": "a{} </STYLE><b>"})},
 		{Name: "rowsorders", Page: "p_rows.vuego", Data: catRowsOrders},
 		{Name: "rowsusers", Page: "p_rows.vuego", Data: catRowsUsers},
